@@ -578,6 +578,160 @@ func (c *Ctx) checkCaseFold() {
 	L.Floor("case-fold", 2, "two functions")
 }
 
+// gapFilterLoop: fn contains a range loop over a row buffer that appends the element to an
+// accumulator (empty before the loop) on exactly the paths where the element differs from the gap
+// character, and the string of the accumulator after the loop is what is added to the result.
+func (c *Ctx) gapFilterLoop(fn *ssa.Function, gap int64) (bool, string) {
+	lc := newLinCtx(c, fn)
+	bf := computeBranchFacts(fn)
+	isRow := func(v ssa.Value) bool {
+		_, f, base := loadedField(v)
+		return base != nil && f == "sequence"
+	}
+	for _, rl := range lc.rangeLoopsOver(fn, isRow) {
+		if len(rl.elems) == 0 {
+			continue
+		}
+		isElem := func(v ssa.Value) bool {
+			for _, e := range rl.elems {
+				if v == ssa.Value(e) {
+					return true
+				}
+			}
+			return false
+		}
+		// the comparison elem != GAP (or ==)
+		var cmps []*ssa.BinOp
+		for b := range rl.lp.Blocks {
+			for _, in := range b.Instrs {
+				if bo, ok := in.(*ssa.BinOp); ok && (bo.Op == token.NEQ || bo.Op == token.EQL) && isElem(bo.X) {
+					if k, ok := constInt(bo.Y); ok && k == gap {
+						cmps = append(cmps, bo)
+					}
+				}
+			}
+		}
+		if len(cmps) == 0 {
+			continue
+		}
+		isNotGapAt := func(b *ssa.BasicBlock, want bool) bool {
+			for _, bo := range cmps {
+				if bf.knownAt(b, bo, (bo.Op == token.NEQ) == want) {
+					return true
+				}
+			}
+			return false
+		}
+		// accumulator: a []uint8 φ of the loop header, empty on entry
+		for _, in := range rl.header.Instrs {
+			acc, ok := in.(*ssa.Phi)
+			if !ok {
+				continue
+			}
+			sl, isSl := acc.Type().Underlying().(*types.Slice)
+			if !isSl {
+				continue
+			}
+			if b, isB := sl.Elem().Underlying().(*types.Basic); !isB || b.Kind() != types.Uint8 {
+				continue
+			}
+			good := true
+			var app *ssa.Call
+			var visit func(v ssa.Value, from, to *ssa.BasicBlock, seen map[ssa.Value]bool)
+			visit = func(v ssa.Value, from, to *ssa.BasicBlock, seen map[ssa.Value]bool) {
+				switch x := v.(type) {
+				case *ssa.Phi:
+					if x == acc {
+						// unchanged on this path: the element was the gap
+						isGap := false
+						for _, bo := range cmps {
+							if bf.knownOnEdge(from, to, bo, bo.Op == token.EQL) {
+								isGap = true
+							}
+						}
+						if !isGap {
+							good = false
+						}
+						return
+					}
+					if seen[x] || !rl.lp.Blocks[x.Block()] {
+						good = false
+						return
+					}
+					seen[x] = true
+					for k, e := range x.Edges {
+						visit(e, x.Block().Preds[k], x.Block(), seen)
+					}
+				case *ssa.Call:
+					base, one := appendOne(x)
+					if !one || base != ssa.Value(acc) || (app != nil && app != x) {
+						good = false
+						return
+					}
+					// the appended element is the loop element, and the append runs only for non-gaps
+					sl := x.Common().Args[1].(*ssa.Slice)
+					stored := false
+					if refs := sl.X.Referrers(); refs != nil {
+						for _, ref := range *refs {
+							if ia, ok := ref.(*ssa.IndexAddr); ok && ia.Referrers() != nil {
+								for _, r2 := range *ia.Referrers() {
+									if st, ok := r2.(*ssa.Store); ok && isElem(st.Val) {
+										stored = true
+									}
+								}
+							}
+						}
+					}
+					if !stored || !isNotGapAt(x.Block(), true) {
+						good = false
+					}
+					app = x
+				default:
+					good = false
+				}
+			}
+			entryEmpty := false
+			for k, e := range acc.Edges {
+				if !rl.lp.Blocks[rl.header.Preds[k]] {
+					if ms, ok := e.(*ssa.MakeSlice); ok {
+						if n, ok := constInt(ms.Len); ok && n == 0 {
+							entryEmpty = true
+						}
+					} else if isEmptySlice(e) {
+						entryEmpty = true
+					}
+					continue
+				}
+				visit(e, rl.header.Preds[k], rl.header, map[ssa.Value]bool{})
+			}
+			if !good || app == nil || !entryEmpty {
+				continue
+			}
+			// string(acc) reaches AddSequence
+			used := false
+			if refs := acc.Referrers(); refs != nil {
+				for _, ref := range *refs {
+					if cv, ok := ref.(*ssa.Convert); ok && !rl.lp.Blocks[cv.Block()] {
+						if cr := cv.Referrers(); cr != nil {
+							for _, u := range *cr {
+								if call, ok := u.(*ssa.Call); ok {
+									if f := call.Common().StaticCallee(); (f != nil && f.Name() == "AddSequence") || (call.Common().IsInvoke() && call.Common().Method.Name() == "AddSequence") {
+										used = true
+									}
+								}
+							}
+						}
+					}
+				}
+			}
+			if used {
+				return true, "filter loop over the row: the element is appended to an accumulator that is empty before the loop exactly when it differs from GAP, and string(accumulator) is added"
+			}
+		}
+	}
+	return false, "no filter loop `if c != GAP { out = append(out, c) }` over the row either"
+}
+
 func (c *Ctx) checkUnalign() {
 	L := c.L
 	L.Rule("unalign-gap", "Unalign adds, for every row, strings.Replace(row, GAP, \"\", -1) under the row's own name and comment to a container created in the function")
@@ -618,6 +772,14 @@ func (c *Ctx) checkUnalign() {
 			det = fmt.Sprintf("replaces %q by %q, all occurrences: %v, source is the row: %v", old, nw, all, src)
 		}
 	})
+	if !ok {
+		// the same thing written as a filter loop: out = append(out, c) for exactly the c != GAP
+		if fok, fdet := c.gapFilterLoop(fn, int64(gap[0])); fok {
+			ok, det = true, fdet
+		} else if fdet != "" {
+			det += "; " + fdet
+		}
+	}
 	L.Check(ok, "unalign-gap", r.label, "strings.Replace(row, GAP, \"\", -1)", c.P.Pos(fn.Pos()), det, det)
 	L.Floor("unalign-gap", 1, "one call")
 }
